@@ -105,8 +105,8 @@ func init() {
 }
 
 var c14Status = []string{"101 Switching Protocols", "200 OK", "100 Continue", "301 Moved Permanently", "400 Bad Request", "426 Upgrade Required", "101", "201 Created"}
-var c14ReplyUpg = [][]string{{"websocket"}, {"WebSocket"}, {"h2c, websocket"}, {"h2c", "websocket"}, nil, {"websockets"}, {"xwebsocket"}, {"web socket"}}
-var c14ReplyConn = [][]string{{"Upgrade"}, {"upgrade"}, {"keep-alive, Upgrade"}, {"keep-alive", "Upgrade"}, nil, {"upgrades"}, {"close"}}
+var c14ReplyUpg = [][]string{{"websocket"}, {"WebSocket"}, {"h2c, websocket"}, {"h2c", "websocket"}, nil, {"websockets"}, {"xwebsocket"}, {"web socket"}, {"websocket", "WebSocket"}, {"upgrade"}}
+var c14ReplyConn = [][]string{{"Upgrade"}, {"upgrade"}, {"keep-alive, Upgrade"}, {"keep-alive", "Upgrade"}, nil, {"upgrades"}, {"close"}, {"Upgrade", "upgrade"}, {"websocket"}}
 var c14Accept = []string{"correct", "constant-key", "altered-case", "truncated", "spaces", "absent", "empty", "key-itself", "wrong-guid"}
 var c14Bodies = []int{0, 1, 1024, 1025, 5000}
 
